@@ -272,6 +272,8 @@ def correspondence(pid, tier, seed):
     for si_, a in enumerate(ans):
         for (i, code, _) in lib.parse_triples(a):
             bad.append((si_ * per + i, code))
+    rounding = [(g, c) for g, c in bad if c >= 400]            # a ratio / efficiency differing in its last bits only: recorded, not a broken tie
+    bad = [(g, c) for g, c in bad if c < 400]
     mine = [(g, c) for g, c in bad if (c >= 100) == (pid == 'C10') or pid == 'C10' and c >= 100 or pid == 'C20' and c < 100]
     failing = []
     if mine:
